@@ -86,7 +86,7 @@ impl From<&Vlan> for Vec<u8> {
     fn from(vlan: &Vlan) -> Self {
         let header = vlan.header.borrow().clone();
         let mut bytes: Vec<u8> = (&header).into();
-        if let Some(inner) = vlan.inner.borrow().clone() {
+        if let Some(inner) = vlan.inner.borrow().clone().filter(|i| !i.is_error()) {
             let b: Vec<u8> = inner.as_ref().into();
             bytes.extend_from_slice(&b);
         } else {
